@@ -16,8 +16,8 @@ Require Import V.Std.Filter V.Std.Builtins V.Std.Itertools1 V.Std.Multi.
 Require Import V.Model.Pyl V.Gen.PylSrc.
 Require Import V.Proofs.Zip V.Proofs.Map V.Proofs.Filter V.Proofs.Enumerate V.Proofs.Accumulate
                V.Proofs.Batched V.Proofs.Compress V.Proofs.TakeDrop V.Proofs.Starmap V.Proofs.Islice
-               V.Proofs.Pairwise V.Proofs.MinMax V.Proofs.AllAny V.Proofs.Folds.
-Require V.Proofs.PylEquivIter V.Proofs.PylEquivZip.
+               V.Proofs.Pairwise V.Proofs.MinMax V.Proofs.AllAny V.Proofs.Folds V.Proofs.Chain V.Proofs.Cycle.
+Require V.Proofs.PylEquivIter V.Proofs.PylEquivZip V.Proofs.PylEquivChain.
 
 (* the split into an iterator and an aggregation file keeps a change to one family from breaking the other's corollaries *)
 
@@ -171,3 +171,32 @@ Proof.
 Qed.
 Print Assumptions batched_source_trace_exact.
 
+
+(* chain: the class [chain] drives the generator [chain._chain_iterator] (translated) and adds the closing of the
+   owned iterators around it ([chain_yield] / the [match] of [run_chain], hand-written: Model/Itertools.v).
+   [run_chain_source] is [run_chain] with the generator replaced by the translated source. *)
+Definition run_chain_source (ss : list nat) : M unit := fun w =>
+  match run_genfn src_chain_iterator [AIters ss] (chain_yield ss) w with
+  | (Exn XGenExit, w') => (Exn XGenExit, w')
+  | (Exn e, w') => (close_all ss ;;; raise e) w'
+  | r => r
+  end.
+Theorem chain_source_trace : forall xss,
+  let '(o, w) := run_chain_source (seq 0 (length xss)) (init_world xss None) in
+  o = Ok tt /\ no_closes (rev (log w)) = spec_chain_trace xss /\ all_released w = true.
+Proof.
+  intros xss. unfold run_chain_source. rewrite PylEquivChain.src_chain_iterator_ok. exact (chain_trace xss).
+Qed.
+Print Assumptions chain_source_trace.
+
+(* cycle: the translated [while True] takes its fuel from the world, the model [a_cycle passes] takes the number
+   of replays as a parameter; every run of the source is the run of the model for some [passes]
+   (PylEquivChain.a_cycle_wf_passes), and [cycle_trace] holds for all of them. *)
+Theorem cycle_source_trace : forall xs, exists passes,
+  let '(o, w) := run_gen (run_genfn src_cycle [AIter 0]) (init_world [xs] None) in
+  o = spec_cycle_end xs /\ no_closes (rev (log w)) = spec_cycle_trace passes xs /\ all_released w = true.
+Proof.
+  intros xs. destruct (PylEquivChain.a_cycle_wf_passes yield_to (init_world [xs] None)) as [passes Hp].
+  exists passes. unfold run_gen. rewrite PylEquivChain.src_cycle_ok, Hp. exact (cycle_trace passes xs).
+Qed.
+Print Assumptions cycle_source_trace.
